@@ -134,6 +134,9 @@ def tr_attr_elt(e, known):
         return ["value" if known == "some" else coq_str("None") if known == "none" else "(py_str_opt value)"]
     if isinstance(e, ast.Constant) and isinstance(e.value, str):
         return [coq_str(e.value)]
+    if isinstance(e, ast.Call) and isinstance(e.func, ast.Name) and e.func.id in ESCAPE_FUNCS and not e.keywords \
+            and len(e.args) == 1 and isinstance(e.args[0], ast.Name) and e.args[0].id == "value" and known == "some":
+        return [f"({e.func.id} value)"]
     if isinstance(e, ast.JoinedStr):
         parts = []
         for v in e.values:
@@ -145,6 +148,31 @@ def tr_attr_elt(e, known):
                 fail(v, "unsupported f-string part in Attribute.__str__")
         return parts
     fail(e, "unsupported expression in Attribute.__str__")
+
+
+ESCAPE_FUNCS = set()
+
+
+def tr_escape_func(fn):
+    """def f(value): return value.replace(a, b).replace(c, d)...  with one-character a, c"""
+    body = strip_doc(fn.body)
+    args = arg_names(fn)
+    if len(args) != 1 or len(body) != 1 or not isinstance(body[0], ast.Return):
+        fail(fn, "escape function is not a single return over one parameter")
+    chain = []
+    e = body[0].value
+    while isinstance(e, ast.Call) and isinstance(e.func, ast.Attribute) and e.func.attr == "replace":
+        if not (len(e.args) == 2 and not e.keywords and all(isinstance(a, ast.Constant) and isinstance(a.value, str) for a in e.args)
+                and len(e.args[0].value) == 1):
+            fail(e, "unsupported replace() in escape function")
+        chain.append((e.args[0].value, e.args[1].value))
+        e = e.func.value
+    if not (isinstance(e, ast.Name) and e.id == args[0]) or not chain:
+        fail(fn, "escape function is not a chain of replace() calls on its parameter")
+    term = "value"
+    for a, b in reversed(chain):          # innermost call is applied first
+        term = f"(replace_char {ord(a)} {coq_str(b)} {term})"
+    return term
 
 
 def tr_attr_str(fn):
@@ -248,6 +276,72 @@ def check_end(fn):
         fail(fn, "handle_endtag has an unexpected shape")
 
 
+def check_marked_section(fn):
+    """try: return super().parse_marked_section(i, report)  except AssertionError: return self.parse_bogus_comment(i)
+    (parser internals: which events html.parser emits is the oracle's business; only the shape is pinned)"""
+    body = strip_doc(fn.body)
+    ok = len(body) == 1 and isinstance(body[0], ast.Try) and len(body[0].body) == 1 and isinstance(body[0].body[0], ast.Return) \
+        and len(body[0].handlers) == 1 and not body[0].orelse and not body[0].finalbody
+    if ok:
+        h = body[0].handlers[0]
+        ok = (isinstance(h.type, ast.Name) and h.type.id == "AssertionError" and len(h.body) == 1
+              and isinstance(h.body[0], ast.Return) and isinstance(h.body[0].value, ast.Call)
+              and is_self_attr(h.body[0].value.func, "parse_bogus_comment"))
+    if not ok:
+        fail(fn, "parse_marked_section has an unexpected shape")
+
+
+def check_fresh_instance(tree, hs):
+    """The history tie: tokenize_html builds a new HtmlToAst per call, __init__ builds a new Tree,
+    feed() clears the tree before feeding.  (Model: Html/HtmlModel.v `tokenize` starts from init_tree and
+    a fresh parser state.)"""
+    fn = next((n for n in tree.body if isinstance(n, ast.FunctionDef) and n.name == "tokenize_html"), None)
+    if fn is None:
+        raise GenError("tokenize_html not found")
+    body = strip_doc(fn.body)
+    a = arg_names(fn)
+    if fn.decorator_list or hs["feed"].decorator_list or hs["__init__"].decorator_list:
+        fail(fn, "decorated entry point (caching?)")
+    ok = len(body) == 2 and isinstance(body[0], ast.Assign) and len(body[0].targets) == 1 \
+        and isinstance(body[0].targets[0], ast.Name) and isinstance(body[0].value, ast.Call) \
+        and getattr(body[0].value.func, "id", None) == "HtmlToAst" \
+        and [getattr(x, "id", None) for x in body[0].value.args] == a[1:2] and isinstance(body[1], ast.Return)
+    if ok:
+        local = body[0].targets[0].id
+        r = body[1].value
+        ok = (isinstance(r, ast.Call) and isinstance(r.func, ast.Attribute) and r.func.attr == "feed"
+              and getattr(r.func.value, "id", None) == local and [getattr(x, "id", None) for x in r.args] == a[0:1])
+    if not ok:
+        fail(fn, "tokenize_html does not create a new HtmlToAst and feed it the text")
+    init = strip_doc(hs["__init__"].body)
+    ia = arg_names(hs["__init__"])
+    ok = len(init) == 2 and isinstance(init[1], ast.Assign) and is_self_attr(init[1].targets[0], "struct") \
+        and isinstance(init[1].value, ast.Call) and getattr(init[1].value.func, "id", None) == "Tree" \
+        and [getattr(x, "id", None) for x in init[1].value.args] == ia[1:2]
+    if not ok:
+        fail(hs["__init__"], "HtmlToAst.__init__ does not build a new Tree(name)")
+    feed = strip_doc(hs["feed"].body)
+    fa = arg_names(hs["feed"])
+    ok = len(feed) == 3
+    if ok:
+        c1 = feed[0]
+        ok = (isinstance(c1, ast.Expr) and isinstance(c1.value, ast.Call) and isinstance(c1.value.func, ast.Attribute)
+              and c1.value.func.attr == "clear" and is_self_attr(c1.value.func.value, "struct")
+              and isinstance(feed[1], ast.Expr) and isinstance(feed[1].value, ast.Call)
+              and isinstance(feed[1].value.func, ast.Attribute) and feed[1].value.func.attr == "feed"
+              and isinstance(feed[1].value.func.value, ast.Call) and getattr(feed[1].value.func.value.func, "id", None) == "super"
+              and [getattr(x, "id", None) for x in feed[1].value.args] == fa[1:2]
+              and isinstance(feed[2], ast.Return) and isinstance(feed[2].value, ast.Attribute) and feed[2].value.attr == "outmost"
+              and is_self_attr(feed[2].value.value, "struct"))
+    if not ok:
+        fail(hs["feed"], "HtmlToAst.feed is not clear(); super().feed(source); return self.struct.outmost")
+    # no module-level parser instance
+    for n in tree.body:
+        if isinstance(n, (ast.Assign, ast.AnnAssign)) and any(
+                isinstance(x, ast.Call) and getattr(x.func, "id", None) in ("HtmlToAst", "Tree") for x in ast.walk(n)):
+            fail(n, "module-level HtmlToAst/Tree instance (state shared between calls)")
+
+
 def nest_class(fn):
     """the class instantiated as `item = Cls(name, attrs)` in Tree.nest_*tag"""
     found = []
@@ -307,6 +401,13 @@ def generate(repo):
     out.append("Definition py_isspace : list N := [" + "; ".join(str(c) for c in spaces) + "].")
     out.append("")
 
+    # module-level escape helpers used by Attribute.__str__
+    ESCAPE_FUNCS.clear()
+    for n in tree.body:
+        if isinstance(n, ast.FunctionDef) and n.name == "escape_attr":
+            out.append(f"(* {n.name} *)")
+            out.append(f"Definition {n.name} (value : str) : str :=\n  {tr_escape_func(n)}.")
+            ESCAPE_FUNCS.add(n.name)
     # Attribute.__str__
     fn = method("Attribute", "__str__")
     if fn is None:
@@ -334,10 +435,13 @@ def generate(repo):
         out.append(f"Definition k_{m} : kind := {nest_class(fn)}.")
     # handlers
     hs = {n.name: n for n in classes["HtmlToAst"].body if isinstance(n, ast.FunctionDef)}
+    if "parse_marked_section" in hs:
+        check_marked_section(hs.pop("parse_marked_section"))
     expected = {"__init__", "feed", "handle_starttag", "handle_startendtag", "handle_endtag", "handle_data", "handle_decl",
                 "unknown_decl", "handle_charref", "handle_entityref", "handle_pi", "handle_comment"}
     if set(hs) != expected:
         raise GenError(f"HtmlToAst methods differ from the modelled set: {sorted(set(hs) ^ expected)}")
+    check_fresh_instance(tree, hs)
     check_start(hs["handle_starttag"])
     check_startend(hs["handle_startendtag"])
     check_end(hs["handle_endtag"])
